@@ -19,7 +19,7 @@ import (
 // every round-trip test of the library while producing bytes that differ from the pinned layout.
 
 func init() {
-	register(&Rule{ID: "R08.5", Props: []string{"C08"}, Floor: 58,
+	register(&Rule{ID: "R08.5", Props: []string{"C08"}, Floor: 45,
 		Doc: "kind binding: encode.Encode<K> emits exactly the type code Type<K>; every writer method named after a scalar kind reaches exactly encode.Encode<K>",
 		Run: runR08_5})
 }
